@@ -202,6 +202,46 @@ func RunKillMatrix(ids []string, repo, verif string, ff *FindingsFile) ([]Mutant
 		dropCaches(p)
 		runtime.GC()
 	}
+	// behaviour-preserving refactorings kept under <verif>/neutral/<id>/: the check of the
+	// property they were written around must stay silent
+	neutrals, _ := filepath.Glob(filepath.Join(verif, "neutral", "*", "meta.json"))
+	sort.Strings(neutrals)
+	for _, mf := range neutrals {
+		var meta struct {
+			ID       string `json:"id"`
+			Property string `json:"property"`
+		}
+		b, err := os.ReadFile(mf)
+		if err != nil || json.Unmarshal(b, &meta) != nil || !want[meta.Property] {
+			continue
+		}
+		id := "neutral:" + meta.ID
+		ov, err := patchOverlay(repo, filepath.Join(filepath.Dir(mf), "patch.diff"))
+		if err != nil {
+			results = append(results, MutantResult{ID: id, Kind: "N", Prop: meta.Property, Outcome: "stale", Detail: shorten(err.Error(), 200)})
+			continue
+		}
+		p, err := Load(Config{Repo: repo, Overlay: ov})
+		if err != nil {
+			results = append(results, MutantResult{ID: id, Kind: "N", Prop: meta.Property, Outcome: "invalid", Detail: shorten(err.Error(), 200)})
+			continue
+		}
+		fails := failingKeys(RunOn(Lookup(meta.Property), p, "quick"), ff)
+		var fresh []string
+		for k, d := range fails {
+			if _, was := baseline[meta.Property][k]; !was {
+				fresh = append(fresh, k+": "+shorten(d, 140))
+			}
+		}
+		sort.Strings(fresh)
+		r := MutantResult{ID: id, Kind: "N", Prop: meta.Property, Outcome: "silent"}
+		if len(fresh) > 0 {
+			r.Outcome, r.Detail = "NOISY", fresh[0]
+		}
+		results = append(results, r)
+		dropCaches(p)
+		runtime.GC()
+	}
 	return results, nil
 }
 
